@@ -352,6 +352,9 @@ where
                 ))
             })?;
 
+            // the length memo belongs to the varint just consumed, not to the next one
+            self.expected = None;
+
             return Poll::Ready(Ok((reult, stream_stopped)));
         }
     }
